@@ -1005,6 +1005,55 @@ def history_stages(ctx, k):
         check_run(ctx, rec, hist, None if i < 3 else recs[i % 3]['result'], expect_ok=True)
 
 
+# ------------------------------------------------------------------ an output path that is a dangling symbolic link
+F30 = 'F30-probe-writes-junk-through-dangling-symlink-output'
+
+
+def history_symlink(ctx, k):
+    """The models of C19 speak about resolved paths without symbolic links (FsModel.v header).  One real boundary case
+    is checked on the observation alone: a requested output path (JSON result or log) that is a DANGLING symbolic link
+    into another directory.  run_mapping's probe `if not pth.exists(): open(pth, 'w').write('junk'); pth.unlink()`
+    follows the link when it writes and removes the link itself: a file holding 'junk' is left at the link target --
+    a file created outside the requested output locations (finding F30)."""
+    rng = ctx.rng
+    base = ctx.scratch / f'sl{k}'
+    src = base / 'src'
+    mapping_inputs(rng, src)
+    sb = sandbox(base, 'box')
+    other = sb / 'elsewhere'
+    other.mkdir()
+    which = ['extended_result_path', 'log_path'][k % 2]
+    job = mapping_job('dangling-symlink-output', sb, src, 'sl', n_processors=rng.choice([1, 2]),
+                      chunk_size=rng.choice([2, 3, 4]), seed=rng.randrange(10 ** 6))
+    cfg = job['args']['config']
+    link, target = cfg[which], str(other / 'target_of_link.txt')
+    job['pre'] = {'symlinks': {link: target}}
+    job['roots'] = job['roots'] + [str(other)]
+    rec = run_batches(ctx, [[job]], f'symlink{k}')[0][0]
+    res = rec['res']
+    before, after = res['before'], res['after']
+    ctx.dist('history', 'output-path-is-dangling-symlink:' + which)
+    declared = {cfg[x] for x in ('extended_result_path', 'csv_result_path', 'hdf5_result_path', 'log_path') if cfg.get(x)}
+    stray = sorted(p for p in after if p not in before and p not in declared and not p.startswith(str(sb / 'out') + '/')
+                   and not under_any(p, [str(sb / 'systmp'), str(sb / 'cwd')]))
+    stray += sorted(p for p in after if p.startswith(str(sb / 'out') + '/') and p not in before and p not in declared)
+    ctx.count(('symlink-output', which, bool(res.get('ok')), len(stray)), nontrivial=True)
+    desc = {'history': 'output-path-is-dangling-symlink', 'which': which, 'link': os.path.relpath(link, sb),
+            'link_target': os.path.relpath(target, sb), 'run_ok': res.get('ok'), 'error': res.get('error'),
+            'new_outside_requested_outputs': [os.path.relpath(p, sb) for p in stray]}
+    for p in stray:
+        junk = False
+        try:
+            junk = pathlib.Path(p).read_bytes() == b'junk'
+        except OSError:
+            pass
+        d = dict(desc)
+        d['class'] = F30 if (p == target and junk) else 'file-created-outside-requested-outputs'
+        ctx.violation(f"run_mapping with {which} a dangling symbolic link: {os.path.relpath(p, sb)} was created outside the "
+                      f"requested output locations" + (" (it holds the probe's 'junk')" if junk else ''), d)
+    shutil.rmtree(base, ignore_errors=True)
+
+
 def run(ctx):
     ctx.rule = ('one traced run of a real stage (strace of a child interpreter); non-trivial = the trace has >= 10 '
                 'operations on the sandbox directories including a Mkdir and an Unlink; a concurrent pair is '
@@ -1049,6 +1098,9 @@ def run(ctx):
         'without the directly_assigned flag the stage adds after collecting; a direct call that FAILS is not required to '
         'clean up (the property promises that for mapping runs only)',
         'tempfile uniqueness under concurrency is assumed (the two-run acceptor checks the observed names are distinct)',
+        'paths are resolved paths without symbolic links (Model/FsModel.v header); the only symbolic-link case run is a '
+        'requested output path that is a dangling link into another directory (history_symlink), checked on the snapshots '
+        'alone (known finding F30)',
         'generated references on which the untraced preparation (statistics, reference markers) itself raises are '
         'regenerated (counted in distribution.reference-preparation); such failures belong to C11/C13/C18',
     ]
@@ -1067,6 +1119,8 @@ def run(ctx):
         shutil.rmtree(ctx.scratch / f's{k}', ignore_errors=True)
     for k in range(ctx.n(2, 10)):
         history_assign(ctx, k)
+    for k in range(ctx.n(1, 2)):
+        history_symlink(ctx, k)
     c19_tracker.run_part(ctx)
 
 
